@@ -2,7 +2,6 @@ package querylog
 
 import (
 	"context"
-	"slices"
 	"strconv"
 	"strings"
 	"github.com/AdguardTeam/AdGuardHome/verifx/vtime"
@@ -69,7 +68,7 @@ func (l *queryLog) entryToJSON(
 		question["unicode_name"] = qhost
 	}
 
-	entIP := slices.Clone(entry.IP)
+	entIP := entry.IP
 	anonFunc(entIP)
 
 	jsonEntry = jobject{
